@@ -137,7 +137,10 @@ def main(run):
         interference = j % 3 == 1
         if interference:
             runs = runs // 3
-        incl, subsets, pairs, buck = sample(lambda: UniformReservoirStorage(size=k, store_targets=False), k, snaps, runs, hrnd, interference)
+        import numpy as np
+        kt = [int, np.int64, int, np.int32, int, np.intp][j % 6]          # capacities given as NumPy integers in some configurations
+        run.see("capacity-type", kt.__name__)
+        incl, subsets, pairs, buck = sample(lambda: UniformReservoirStorage(size=kt(k), store_targets=False), k, snaps, runs, hrnd, interference)
         run.count("configs-with-interleaved-library-objects", int(interference))
         run.ok(runs, kind=f"k={k}")
         fails = []
@@ -186,7 +189,7 @@ def main(run):
         probe = sorted({0, k, n // 2, n - 1})
         cnt = collections.Counter()
         for _ in range(runs):
-            st = UniformReservoirStorage(size=k, store_targets=False)
+            st = UniformReservoirStorage(size=(k if k % 3 else __import__("numpy").int64(k)), store_targets=False)
             for i in range(n):
                 st.update({"t": i})
             have = {x["t"] for x in st.get_data()[0]}
